@@ -96,6 +96,7 @@ static void set_par(LocalNetwork* n, const std::string& c)
   if (c == "par:a") n->set_m_0_apriori();
   else if (c == "par:p") n->set_m_0_aposteriori();
   else if (c.compare(0, 5, "par:c") == 0) n->conf_pr(CP[atoi(c.c_str() + 5) % 4]);
+  else if (c.compare(0, 5, "par:s") == 0) { static const double M0[] = {5, 20, 10, 1}; n->apriori_m_0(M0[atoi(c.c_str() + 5) % 4]); n->update_residuals(); }   // a priori reference standard deviation; the setter leaves the notification to the caller
 }
 
 static void apply_change(LocalNetwork* n, const std::string& c)
@@ -241,8 +242,11 @@ Verdict execute(const Plan& plan, EventLog& log, Stats& st)
       log.line("%d o%lld update(%d)", n, s.arg(0) % nobj, w); st.add("ops.update"); st.nontrivial = true; st.shape += fmt("net:upd%d,", w);
       st.state("hist", fmt("net/update%d/asked%d", w, std::min(O.asked, 2)));
     } else if (op == "par") {
-      int w = (int)(s.arg(1) % 3);
-      std::string c = w == 0 ? "par:a" : w == 1 ? "par:p" : fmt("par:c%d", (int)(s.arg(2) % 4));
+      int w = (int)(s.arg(1) % 4);
+      // (the a priori m0 scales the project equations: once approximate coordinates were moved by corrections computed
+      //  under the old scale, "given before the first adjustment" would be another input at round-off level)
+      if (w == 3) { bool moved = false; for (auto& c0 : O.changes) if (c0 == "refine" || c0 == "refcoord") moved = true; if (moved) { n++; continue; } }
+      std::string c = w == 0 ? "par:a" : w == 1 ? "par:p" : w == 2 ? fmt("par:c%d", (int)(s.arg(2) % 4)) : fmt("par:s%d", (int)(s.arg(2) % 4));
       apply_change(net, c); O.changes.push_back(c);
       log.line("%d o%lld %s", n, s.arg(0) % nobj, c.c_str()); st.add("ops.parameter"); st.nontrivial = true; st.shape += "net:" + c + ",";
       st.state("hist", fmt("net/%s/asked%d", c.substr(0, 5).c_str(), std::min(O.asked, 2)));
@@ -309,7 +313,7 @@ void generate(Plan& p, Rng& g, const std::string&)
       // question in turn, twice (the second round is answered without any fresh object being built in between)
       static const char* X[] = {"conf_int_coef", "doc:xml", "doc:general", "studentized", "stdev_res", "unknown_stdev", "ellipse", "doc:adjobs", "doc:unknowns", "m_0", "stdev_obs"};
       auto qi = [&](const char* name) { for (int i = 0; i < NQK; i++) if (std::string(QK[i]) == name) return i; return 0; };
-      { Step s; s.op = "par"; s.a = {0, (long long)g.below(3), (long long)g.range(1, 3)}; p.steps.push_back(s); }
+      { Step s; s.op = "par"; s.a = {0, (long long)g.below(4), (long long)g.range(1, 3)}; p.steps.push_back(s); }
       int k = qi(X[g.below(11)]); long long a = (long long)g.below(64);
       for (int round = 0; round < 2; round++) for (int o = 0; o < 2; o++) { Step s; s.op = "q"; s.a = {o, k, a, a}; p.steps.push_back(s); }
     }
@@ -332,7 +336,7 @@ void generate(Plan& p, Rng& g, const std::string&)
     else {
       int r = (int)g.below(10);
       if (r < 3) { s.op = "upd"; s.a.push_back((long long)g.below(4)); }
-      else if (r < 5) { s.op = "par"; s.a.push_back((long long)g.below(3)); s.a.push_back((long long)g.below(4)); }
+      else if (r < 5) { s.op = "par"; s.a.push_back((long long)g.below(4)); s.a.push_back((long long)g.below(4)); }
       else if (r < 7) { s.op = "chg"; long long w = (long long)g.below(7); if (w == 6) w = 5; s.a.push_back(w); s.a.push_back((long long)g.below(w == 5 ? 1000 : 4)); }
       else query(g.chance(1, 2) ? F0[g.below(9)] : F1[g.below(12)]);
     }
